@@ -53,9 +53,10 @@ SUBS = [[r for i, r in enumerate(ROLES) if m >> i & 1] for m in range(16)]
 LEAVES = ['role:a', 'role:b', 'role:c', 'role:d', '@', '!', "'x':%(k)s", 'rule:base', 'role:a', 'role:b']
 ODD_LEAVES = ['"x":%(k)s', 'role:é', 'role:a\\b', 'k:%(k)s"', "'y':%(k)s", 'role:"q"x',
               # characters outside the basic multilingual plane (a JSON escape writes them as a surrogate pair)
-              'role:\U0001F600', 'role:\U0001D518x', "'\U00010348':%(k)s"]
+              'role:\U0001F600', 'role:\U0001D518x', "'\U00010348':%(k)s", 'role:\U00020BB7', 'role:\U00030000z']
 # credentials that hold the odd role names, so that an odd leaf mangled by a tool changes a decision
-ODD_CREDS = [['é'], ['a\\b'], ['"q"x'], ['\U0001F600'], ['\U0001D518x', 'a'], ['\U0001F600', 'b', 'é']]
+ODD_CREDS = [['é'], ['a\\b'], ['"q"x'], ['\U0001F600'], ['\U0001D518x', 'a'], ['\U0001F600', 'b', 'é'], ['\U00020BB7'], ['\U00030000z', 'c'],
+             ['\U00010BB7'], ['\U00020000z']]      # the last two: what a plane-2/3 character becomes when its surrogates are put together wrongly
 ALIAS_SPELLINGS = ['rule:%s', 'rule:%s', '(rule:%s)', ' rule:%s ', '((rule:%s))', [['rule:%s']], ['rule:%s']]
 
 
